@@ -1,7 +1,7 @@
 #!/usr/bin/env python3
 """try_seed.py <patch.diff> Cnn [Cnn...] [--tier quick]  — run checks against a scratch worktree of /repo
 with the patch applied (never touches /repo or the committed evidence)."""
-import os, subprocess, sys, shutil
+import os, subprocess, sys, shutil, json, time
 V = os.path.dirname(os.path.dirname(os.path.abspath(__file__)))
 def main():
     args = [a for a in sys.argv[1:] if not a.startswith("--")]
@@ -15,6 +15,7 @@ def main():
     evid = "/tmp/evid-seed-" + tag
     subprocess.check_call(["git", "-C", "/repo", "worktree", "add", "-q", "--detach", wt, "HEAD"])
     rc_all = 0
+    results = {}
     try:
         subprocess.check_call(["git", "-C", wt, "apply", patch])
         rc = subprocess.call(["rsync", "-a", "--exclude", ".lake/build/ir", V + "/lean/", lean + "/"])
@@ -30,10 +31,20 @@ def main():
             for l in lines[:8] + why:
                 print("   ", l)
             rc_all |= r.returncode
+            results[pid] = {"tier": tier, "exit": r.returncode, "lines": lines[:8], "why": why,
+                            "caught": r.returncode != 0 and any(l.startswith("VIOLATION") for l in lines)}
     finally:
         subprocess.call(["git", "-C", "/repo", "worktree", "remove", "--force", wt])
         shutil.rmtree(lean, ignore_errors=True)
         shutil.rmtree(evid, ignore_errors=True)
+    sd = os.path.dirname(patch)
+    if os.path.dirname(sd) == V + "/seeded" and results:
+        rp = sd + "/result.json"
+        old = {}
+        if os.path.exists(rp):
+            old = json.load(open(rp))
+        old.update(results)
+        json.dump(old, open(rp, "w"), indent=1, sort_keys=True)
     return 0
 if __name__ == "__main__":
     sys.exit(main())
